@@ -51,6 +51,7 @@ func contract_checkInitialized(m protoreflect.Message) (err error) {
 // @ guard-errors
 // @ pure protoreflect.Message.GetUnknown
 // @ callsite m.SetUnknown: !o.DiscardUnknown && len(arg[protoreflect.RawFields](0)) == len(m.GetUnknown())+tagLen+valLen
+// @ callsite m.SetUnknown: len(arg[protoreflect.RawFields](0)) >= len(m.GetUnknown())
 // @ site b = b[tagLen+valLen:]: 0 <= tagLen && 0 <= valLen && tagLen+valLen <= len(b)
 func contract_UnmarshalOptions_unmarshalMessageSlow(o UnmarshalOptions, b []byte, m protoreflect.Message) (err error) {
 	requires(o.Merge)
